@@ -61,11 +61,15 @@ CHECKS = {
  "C09": dict(technique="Lean 4 proofs (symbol parsing round trip, glob = meaning of the pattern, sort is a permutation, executed = selected, no match => failure) + differential against the real cgreen-runner on generated libraries",
    text="Theorems C09_discover, C09_glob (sound and complete w.r.t. an inductive meaning of literal+'*' patterns), sortItems_perm, C09_select, C09_no_match_fails, C09_status, C09_missing_library and the F20 witness (Props/C09.lean); tie: generated shared libraries (1-12 tests, and step-1/step/step+1/2*step+1 tests around the discovered list's growth step; several contexts plus the default one; names sharing prefixes) whose test bodies append to an execution log are run through the real cgreen-runner with patterns matching zero/one/several tests, one or several libraries with or without their own patterns, a missing library, and the -q/--xml/-X/-s options; executed multiset and exit status are compared with the model and with an independent fnmatch oracle; library paths up to 3000 characters run in a sanitizer build.",
    ref="§6 C09"),
+ "C14": dict(technique="Lean 4 proofs (an overrunning test is an abnormal end: one exception and a failing verdict when forked, a non-success process end in process; the accepted values of the variable are exactly the digit strings denoting 1..INT_MAX) + real 1-second limits in all three modes compared with the model",
+   text="Theorems C14_forked_exception, C14_forked_verdict, C14_inproc, C14_env, C14_env_classes (Props/C14.lean, on top of the runner refinement of C01/C02); tie: scenarios in which a test sleeps past a 1 s limit set by CGREEN_PER_TEST_TIMEOUT or by die_in(), before/after delivering 0-3 results, first/middle/last, in a context setup, forked / CGREEN_NO_FORK / run_single_test, with and without CGREEN_CHILD_EXIT_WITH__EXIT, are run on the real library and compared with the model (status, totals); values of the variable of every class (positive, zero, negative, non-numeric, empty, trailing garbage, leading blank, overflowing, signed) are run in all three modes and compared with Tmo.parseTimeout.",
+   ref="§6 C14"),
 }
 MOCK_NOTE = ("Trusted: Lean kernel, harness/mock_ops.c and the CGREEN_VERIF queue-dump hook, the generators in harness/mock_checks.py. Modelled, not verified: parameter "
              "constraints are integer eq/ne/lt/gt clauses on up to three parameters, return values are integers; side effects, content setters, "
              "capture and double clauses are covered by C12/C15/C16; removal of never_expect entries is modelled as a filter (equivalent under the invariant of at most one per function).")
-NOTES = {"C09": "Trusted: Lean kernel, the generated libraries and the execution log, Python's fnmatch as independent oracle. Modelled, not verified: nm's output format (a definition line contains ' D ' and the CgreenSpec__ symbol), fnmatch(3) restricted to literals and '*', dlopen/dlsym; the order among tests of equal name after sorting is not modelled (only the multiset is compared).",
+NOTES = {"C14": RUNNER_NOTE + " Assumed, not modelled: that alarm(n) delivers SIGALRM after n seconds, neither earlier nor later (the check only observes that a 1 s limit stops a sleeping test within 20 s); a failing signal() in die_in() is outside the model.",
+         "C09": "Trusted: Lean kernel, the generated libraries and the execution log, Python's fnmatch as independent oracle. Modelled, not verified: nm's output format (a definition line contains ' D ' and the CgreenSpec__ symbol), fnmatch(3) restricted to literals and '*', dlopen/dlsym; the order among tests of equal name after sorting is not modelled (only the multiset is compared).",
          "C12": "Trusted: Lean kernel, harness/val_probe.c, ASan as the judge of out-of-bounds writes. The model is thin: the theorems contribute the quantifier, the assurance against a wrong size or address in the C comes from the sweep. Assumed: bit-preserving loads/stores of double by the compiler and ABI; little-endian host (the big-endian branch is proved in the model but not executed).",
          "C10": "Trusted: Lean kernel, translate/formats.py (clang-14 JSON AST walk; kept to call sites, literals and types), harness/cmp_probe.c (captures the message with vsnprintf, i.e. glibc's printf family as the judge of what a format prints). Modelled, not verified: glibc printf conversions as modelled by Fmt.parseConv; double-valued messages (%f) are typed but their digits are not compared; the +512 slack of the message buffer is not proved sufficient (ASan watches it).",
          "C16": "Trusted: Lean kernel, harness/tok_probe.c, the generated bind_probe translation unit, gcc's preprocessor (stringification). Modelled: identifiers contain no comma, parenthesis or white space; a trailing comma (which the preprocessor cannot produce) is outside the model.",
